@@ -24,17 +24,18 @@ type File struct {
 
 // Spec is the run spec of SIM-LOADER.
 type Spec struct {
-	Marker     string             `json:"marker"`
-	RootForm   string             `json:"root_form"` // data | reader | data_path_abs | data_path_http | file_rel | file_abs | file_url | http | https
-	Reader     string             `json:"reader"`    // func | default
-	External   bool               `json:"external"`  // IsExternalRefsAllowed
-	Reuse      bool               `json:"reuse,omitempty"`
-	ThenMemory any                `json:"then_memory,omitempty"` // a document without external references loaded from memory afterwards on the same Loader
-	MapSeed    uint64             `json:"map_seed,omitempty"`    // 0 = sorted map iteration inside the loader; else seeded permutation
-	Files      []File             `json:"files"`
-	Decoys     []string           `json:"decoys,omitempty"`  // paths of files nothing refers to
-	Faults     []simenv.ReadFault `json:"faults,omitempty"`  // Loc = "file:<index>"
-	Changed    []int              `json:"changed,omitempty"` // file indices whose second read returns different content
+	Marker       string             `json:"marker"`
+	RootForm     string             `json:"root_form"` // data | reader | data_path_abs | data_path_http | file_rel | file_abs | file_url | http | https
+	Reader       string             `json:"reader"`    // func | default
+	External     bool               `json:"external"`  // IsExternalRefsAllowed
+	Reuse        bool               `json:"reuse,omitempty"`
+	RootFragRefs []string           `json:"root_frag_refs,omitempty"` // fragment references planted in the root at positions the loader visits whose fragment may not exist in the target
+	ThenMemory   any                `json:"then_memory,omitempty"`    // a document without external references loaded from memory afterwards on the same Loader
+	MapSeed      uint64             `json:"map_seed,omitempty"`       // 0 = sorted map iteration inside the loader; else seeded permutation
+	Files        []File             `json:"files"`
+	Decoys       []string           `json:"decoys,omitempty"`  // paths of files nothing refers to
+	Faults       []simenv.ReadFault `json:"faults,omitempty"`  // Loc = "file:<index>"
+	Changed      []int              `json:"changed,omitempty"` // file indices whose second read returns different content
 }
 
 var plural = map[string]string{
@@ -57,6 +58,7 @@ type gen struct {
 	cur     int // file being built
 	extP    int // probability (in 1/100) of an external reference at a slot
 	canP    int // probability of a canary-style reference
+	unvis   int // >0 while building a position no resolver visits
 }
 
 // rel returns the reference text from file i to file j.
@@ -168,11 +170,22 @@ func (g *gen) slot(kind string, depth int) any {
 			if t.file != g.cur {
 				frag := t.frag
 				if strings.HasPrefix(frag, "/components/") && g.r.Chance(1, 8) {
-					// a component that the target file has only sometimes: exercises the
-					// missing-fragment path (and its raw re-read fallback)
-					frag = strings.Replace(frag, "/T", "/U", 1)
+					if g.r.Chance(1, 3) {
+						// a pointer token that is only a prefix of a real member name: must not resolve
+						if pl, ok := plural[kind]; ok {
+							frag = strings.Replace(frag, "/components/"+pl+"/", "/components/"+pl[:len(pl)-1]+"/", 1)
+						}
+					} else {
+						// a component that the target file has only sometimes: exercises the
+						// missing-fragment path (and its raw re-read fallback)
+						frag = strings.Replace(frag, "/T", "/U", 1)
+					}
 				}
-				return map[string]any{"$ref": g.ref(g.cur, t.file, frag)}
+				ref := g.ref(g.cur, t.file, frag)
+				if g.cur == 0 && g.unvis == 0 && frag != t.frag {
+					g.s.RootFragRefs = append(g.s.RootFragRefs, ref)
+				}
+				return map[string]any{"$ref": ref}
 			}
 		}
 	case roll < g.canP+g.extP+12:
@@ -218,13 +231,17 @@ func (g *gen) element(kind string, depth int) any {
 			p["schema"] = g.slot("schema", d)
 		}
 		if g.r.Chance(1, 5) {
+			g.unvis++
 			p["examples"] = map[string]any{"e": g.slot("example", d)} // a position no resolver visits
+			g.unvis--
 		}
 		return p
 	case "header":
 		h := map[string]any{"schema": g.slot("schema", d)}
 		if g.r.Chance(1, 5) {
+			g.unvis++
 			h["examples"] = map[string]any{"e": g.slot("example", d)} // not visited
+			g.unvis--
 		}
 		return h
 	case "requestBody":
@@ -233,7 +250,9 @@ func (g *gen) element(kind string, depth int) any {
 			mt["examples"] = map[string]any{"e": g.slot("example", d)}
 		}
 		if g.r.Chance(1, 5) {
+			g.unvis++
 			mt["encoding"] = map[string]any{"p": map[string]any{"headers": map[string]any{"h": g.slot("header", d)}}} // not visited
+			g.unvis--
 		}
 		return map[string]any{"content": map[string]any{"application/json": mt}}
 	case "response":
@@ -289,9 +308,15 @@ func (g *gen) whole(isRoot bool) any {
 		if !ok {
 			continue
 		}
+		if k == "link" {
+			g.unvis++ // components.links is a position no resolver visits
+		}
 		m := map[string]any{"T" + k: g.element(k, 3)}
 		if g.r.Chance(1, 3) {
 			m["U"+k] = g.slot(k, 2)
+		}
+		if k == "link" {
+			g.unvis--
 		}
 		comps[pl] = m
 	}
